@@ -459,7 +459,11 @@ def check_trace(stream, inp, res):
     recent = {}                  # (r, mid) -> arrival time of requests (deduplication window)
     kk_event = {}                # explicit response number -> event index
     render_pos = []              # (gid, event index) of render calls
-    now = 0; down = False; mode = 0
+    now = 0; down = False; mode = 0; gate_on = False
+    render_start = {}            # (gid, version) -> (event index, render gated?) of the render call that produced that payload
+    done_events = {}             # (r, tok) -> indices of render completions the script releases
+    for i, ev in enumerate(events):
+        if ev[0] == "done": done_events.setdefault((ev[1], ev[2]), []).append(i)
     pending_final = {}           # (r, tok) -> registrations ended by the server whose final message is still queued
     last_trig = None             # (event index, kind, kk)
     for i, ev in enumerate(events):
@@ -495,6 +499,10 @@ def check_trace(stream, inp, res):
         # so they permit an end; the final notification seen on the wire (below) requires it
         permit = set()
         if k == "mode": mode = ev[1]
+        if k == "gate": gate_on = bool(ev[1])
+        if k == "trig" and any(last for (kind, code, last, kk) in ev[2]):
+            for g in live_before:                            # the application declares the next notification the last one (sticky)
+                if regs[g]["last_declared"] is None: regs[g]["last_declared"] = i
         if k == "trig":
             bad = any(last or (kind == "resp" and code >= 128) or (kind == "render" and mode != 0) for (kind, code, last, kk) in ev[2])
             for g in live_before:
@@ -520,7 +528,7 @@ def check_trace(stream, inp, res):
                 nlive += 1
                 if n != nlive: return ("C08:count-mismatch" + sfx, "update_observation_count(%d) after accepting %d, %d observers are live" % (n, gid, nlive))
                 regs[gid] = {"r": r, "tok": tok, "con": con, "live": True, "add_event": i, "end_event": None, "cause": None, "last_obs": -1,
-                             "final_sent": False, "last_notif": None, "cancels": 0, "maybe_final": False}
+                             "final_sent": False, "last_notif": None, "cancels": 0, "maybe_final": False, "last_declared": None}
                 if k == "req" and mode != 0: permit.add(gid)
                 live_by_key[(r, tok)] = gid
             elif o[0] == 2:                                 # cancellation callback: [2, gid, count]
@@ -533,12 +541,14 @@ def check_trace(stream, inp, res):
                 rg["live"] = False; rg["end_event"] = i; ended_here.append(gid)
                 if live_by_key.get((rg["r"], rg["tok"])) == gid: del live_by_key[(rg["r"], rg["tok"])]
             elif o[0] == 3:
-                render_pos.append((o[1], i))
+                render_pos.append((o[1], i)); render_start[(o[1], o[2])] = (i, gate_on and o[1] >= 0)
                 if o[1] >= 0 and o[1] in regs and not regs[o[1]]["live"]:
                     return ("C08:render-after-end" + sfx, "resource rendered for ended registration %d" % o[1])
             elif o[0] == 0:                                 # datagram [0, r, type, mid, tok, code, obs, pk, pv, gid, retrans]
                 _, r, t, mid, tok, code, obs, pk, pv, gid, retrans = o
                 if t == 0:
+                    if retrans and (r, mid) not in outstanding and not down:
+                        return ("C08:retransmission-of-answered" + sfx, "confirmable message mid %d to endpoint %d is retransmitted although it was answered (ACK/RST), given up or its endpoint reported an error" % (mid, r))
                     if retrans: outstanding.setdefault((r, mid), [now, 1])[1] += 1
                     else: outstanding[(r, mid)] = [now, 1]
                 if retrans or t == 3 or code == 0: continue
@@ -574,6 +584,16 @@ def check_trace(stream, inp, res):
                 if code >= 128 or obs < 0:
                     must_end.setdefault(gid, "final-notification"); rg["final_sent"] = True
                 else:
+                    if rg["last_declared"] is not None and obs > 0:
+                        # when was this notification handed to the transport? explicit response: not before its trigger; rendered:
+                        # when its render call returned (at once, or at the script's next render completion for that token)
+                        if pk == 2: emitted = kk_event.get(pv, -1)
+                        else:
+                            e_r, gated = render_start.get((gid, pv), (-1, False))
+                            later = [d for d in done_events.get((r, tok), []) if d > e_r]
+                            emitted = (later[0] if later else -1) if gated else e_r
+                        if emitted >= rg["last_declared"]:
+                            return ("C08:observe-after-last" + sfx, "registration %d: the application marked the next notification last in event %d, but the notification produced in event %d went out with Observe %d (the registration goes on)" % (gid, rg["last_declared"], emitted, obs))
                     if obs <= rg["last_obs"]: return ("C08:observe-not-increasing" + sfx, "registration %d: Observe %d after %d" % (gid, obs, rg["last_obs"]))
                     rg["last_obs"] = obs; rg["last_notif"] = (pk, pv)
         # confirmable notification timed out: all five copies sent and the last wait elapsed without an answer
@@ -597,7 +617,16 @@ def check_trace(stream, inp, res):
     if res.get("loop_exceptions"): return ("C08:loop-exception" + sfx, "%d exception(s) reached the event loop" % res["loop_exceptions"])
     if sorted(g for g, r in regs.items() if r["live"]) != sorted(res["observers"]):
         return ("C08:observer-set-mismatch" + sfx, "resource holds observers %r, live registrations are %r" % (res["observers"], sorted(g for g, r in regs.items() if r["live"])))
+    if not down:
+        busy = {x[0] for x in res["exchanges"]}
+        for b in res["backlog"]:
+            if b[0] not in busy:                            # NSTART = 1 queue: something waits although nothing is in flight to that endpoint
+                return ("C08:backlog-stalled" + sfx, "message mid %d waits in the backlog of endpoint %d although no exchange with that endpoint is open: it will never be sent" % (b[1], b[0]))
     quiescent = not res["exchanges"] and not res["backlog"] and not res["gated"] and not down
+    if inp.get("settled") and quiescent:
+        for g, rg in regs.items():
+            if rg["live"] and rg["last_declared"] is not None and rg["add_event"] < rg["last_declared"]:
+                return ("C08:not-ended:declared-last" + sfx, "registration %d: a notification was marked last in event %d, everything has settled, and the registration is still live" % (g, rg["last_declared"]))
     if inp.get("settled") and quiescent and last_trig is not None:
         ti, kind, code, last, kk = last_trig
         for g, rg in regs.items():
@@ -633,7 +662,9 @@ class C08(fw.Property):
                     "random.uniform patched to ACK_TIMEOUT (retransmission times 2,4,8,16,32 s)"]
     assumptions = ["observers are triggered in an order chosen by the script (the real set's order is one of them); the real_set stream runs the unmodified set under the oracle only",
                    "every observer gets its own Message for explicit responses (resource.updated_state(response) copies since fix e47f5b3; the shared_response stream compares exactly that)",
-                   "task garbage collection is not modelled"]
+                   "task garbage collection is not modelled",
+                   "the test resource accepts every observation and never calls ServerObservation.deregister(): the declined / early- and late-deregister branches of _render_to_pipe (interfaces.py:509-515, protocol.py:1347-1364) are outside model, generator and theorems",
+                   "retransmissions: the silence-after-end theorems speak about first transmissions; copies of a datagram already in flight are covered by the oracle rule C08:retransmission-of-answered only"]
     level_text = ("Theorems (closed under the global context) over a hand-written executable model of the observe server path, for ALL event histories: "
                   "live registrations = the resource's observers, add_observation once per registration, cancellation callback exactly once per ended "
                   "registration and never for a live one, every update_observation_count reports the true count (count restored); once ended nothing is "
@@ -644,7 +675,7 @@ class C08(fw.Property):
     level_note = ("Token / strictly rising Observe numbers on the wire and 'latest state sent' (idle task + nothing of the registration in the backlog => "
                   "the last datagram on the wire carries the current resource version) are proved over all histories. For explicit responses the theorem "
                   "says the last produced one is the last on the wire; that it is the last one passed is the loop-level lemma on the lossy future. "
-                  "PARTIAL: Time-out is stated for the firing of the last retransmission timer, not derived from EAdvance. Not modelled: task garbage collection, "
+                  "The fairness state is shown reachable (C08_latest_state_reached / _eventually_sent: progress events only). PARTIAL: Time-out is stated for the firing of the last retransmission timer, not derived from EAdvance; 'ends on unsuccessful / last notification' is stated for the task's code, not for the trigger event. Not modelled: task garbage collection, "
                   "No-Response, block-wise, multicast; observers are triggered in a script-chosen order. Trusted: the model's correspondence (sampled), virtual loop, harness codec.")
 
     # ------------------------------------------------------------------ generators (every choice from rng)
